@@ -675,6 +675,39 @@ func famCancelBurst(e *env, root *core.Rand, n, tries int) {
 	}
 }
 
+// ---- family checkonly (sqlite): stored-form plans in which a block that has check groups has no sequences
+// (the vaults do not validate; the cosmosdb creator rejects the shape, so this family is sqlite only): Create,
+// Delete, the usual census after each, and the same ids must be creatable again (seeded change C14-i) ----
+func famCheckOnly(e *env, root *core.Rand, n int) {
+	for i := 0; i < n; i++ {
+		r := root.Fork(uint64(9800 + i))
+		bk := []string{"sqlite-mem", "sqlite-file"}[i%2]
+		b, _, rec := open(bk)
+		seed := r.Fork(1)
+		mk := func() *workflow.Plan {
+			q := seed.Fork(0)
+			p := plangen.New(q, plangen.Opts{GroupP: 0.7, MaxBlocks: 2, MaxSeqs: 2, MaxActions: 2, MaxCheckActions: 2}).Plan()
+			storelib.Materialize(q, p, storelib.MatOpts{AnyP: 0.1})
+			for _, bl := range p.Blocks {
+				if bl.BypassChecks != nil || bl.PreChecks != nil || bl.PostChecks != nil || bl.ContChecks != nil || bl.DeferredChecks != nil {
+					bl.Sequences = nil
+				}
+			}
+			return p
+		}
+		id := mk().ID
+		rec.IDs = []uuid.UUID{id}
+		for k := 0; k < 2 && !rec.Dead; k++ {
+			if rec.Create(mk(), mk(), "create") != nil {
+				break
+			}
+			rec.Delete(id)
+		}
+		e.emit("checkonly", i, bk, rec, true, nil, nil)
+		closeVault(b, rec)
+	}
+}
+
 // ---- family kill (thorough): child process killed during Create on a file-backed store ----
 func childKill(dir string, seed uint64, idx int) {
 	set := storelib.NewSet()
@@ -814,5 +847,6 @@ func main() {
 	famBigBatch(e, root, *nBig)
 	famCancel(e, root, *nCancel)
 	famCancelBurst(e, root, *nBurst, 300)
+	famCheckOnly(e, root, 12)
 	famKill(e, root, *nKill)
 }
